@@ -7,6 +7,8 @@ import Mdsort.Model.MimeEntity
 import Mdsort.Spec.Message
 import Mdsort.Spec.Mime
 import Mdsort.Proofs.Mime
+import Mdsort.Model.Eval
+import Driver.Ast
 
 /-!
 Line-protocol driver: one request per line `<side> <op> <hexarg>*`, one response
@@ -18,6 +20,15 @@ open Mdsort
 
 @[extern "mdsort_regex"]
 opaque regexFFI (pat : @& ByteArray) (subj : @& ByteArray) (icase : UInt32) : Array UInt32
+
+@[extern "mdsort_strptime"]
+opaque strptimeFFI (fmt : @& ByteArray) (str : @& ByteArray) : Array UInt32
+
+@[extern "mdsort_zone"]
+opaque zoneFFI (name : @& ByteArray) (now : UInt64) : UInt64
+
+@[extern "mdsort_timegm"]
+opaque timegmFFI (y mo d h mi s : UInt32) : UInt64
 
 def hexDigit (n : UInt8) : Char :=
   if n < 10 then Char.ofNat (48 + n.toNat) else Char.ofNat (87 + n.toNat)
@@ -107,6 +118,87 @@ def handleSpec (op : String) (args : List Bytes) : Option String :=
   | "unfold", [v] => some (toHex (Spec.unfold v))
   | _, _ => none
 
+/-! ### evaluator ops -/
+
+def ba (b : Bytes) : ByteArray := ByteArray.mk b.toArray
+
+/-- The platform regex library through the FFI (REG_EXTENDED | REG_NEWLINE [| REG_ICASE]). -/
+def rxFFI (p : Model.Pat) (subject : Bytes) : Model.RxRes :=
+  let r := regexFFI (ba p.src) (ba subject) (if p.icase then 1 else 0)
+  let r0 : Option UInt32 := r[0]?
+  match r0 with
+  | some 0 =>
+    let n := ((r[1]?).getD (0 : UInt32)).toNat
+    .ok ((List.range n).map fun i =>
+      let so : UInt32 := (r[2 + 2 * i]?).getD 0
+      let eo : UInt32 := (r[3 + 2 * i]?).getD 0
+      if so == 0xffffffff then none else some (so.toNat, eo.toNat))
+  | some 1 => .nomatch
+  | _ => .error
+
+def strptimeEnv (s : Bytes) : Option (Model.Tm × Bytes) :=
+  Gen.dateFormats.findSome? fun f =>
+    let r := strptimeFFI f.toUTF8 (ba s)
+    if r.size == 7 then
+      let u (i : Nat) : UInt32 := (r[i]?).getD 0
+      let g (i : Nat) : Int := ((u i).toNat : Int)
+      -- tm_year below 1900 wraps in the uint32 encoding
+      let year : Int := if u 1 > 0x7fffffff then g 1 - 4294967296 else g 1
+      some ({ year := year, mon := g 2, mday := g 3, hour := g 4, min := g 5, sec := g 6 }, s.drop (u 0).toNat)
+    else none
+
+def zoneEnv (now : Int) (name : Bytes) : Option Int :=
+  some ((zoneFFI (ba name) now.toNat.toUInt64).toNat - 2147483648 : Int)
+
+def commandOracle (argv : List Bytes) : Int :=
+  match argv with
+  | a :: _ => if a == ofString "true" then 0 else if a == ofString "false" then 1 else -1
+  | [] => -1
+
+def subDump (s : Model.Sub) : String :=
+  toHex s.str ++ "/" ++ (match s.off with | none => "-/-" | some (a, b) => s!"{a}/{b}")
+
+def optHexD : Option Bytes → String
+  | none => "~"
+  | some b => toHex b
+
+def matchDump (m : Model.Match) : String :=
+  String.intercalate "," [m.ty.name, toString m.lno, toString m.part, toHex m.path, toHex m.maildir, toHex m.subdir,
+    String.intercalate "+" (m.subs.map subDump), String.intercalate "+" (m.argv.map toHex), optHexD m.key, optHexD m.val]
+
+def triName : Model.Tri → String
+  | .match => "MATCH" | .nomatch => "NOMATCH" | .error => "ERROR"
+
+/-- `eval <ast> <message> <path> <dryrun:0|1> <now decimal as ascii> <existing dir>*` -/
+def handleEval (args : List Bytes) : String :=
+  match args with
+  | ast :: file :: path :: dry :: now :: dirs =>
+    match Driver.parseExpr (String.ofList (ast.map fun c => Char.ofNat c.toNat)) with
+    | none => "BADAST"
+    | some e =>
+      let nowI : Int := ((String.ofList (now.map fun c => Char.ofNat c.toNat)).toInt?).getD 0
+      let msg := Model.parseMessage file
+      let name := (path.reverse.takeWhile (· != 47)).reverse
+      match Model.flagsParse name with
+      | none => "PARSEERR"
+      | some mf =>
+        let env : Model.Env := {
+          rx := rxFFI, command := commandOracle, isDir := fun p => dirs.contains p, now := nowI,
+          strptime := strptimeEnv, zoneName := zoneEnv nowI, fileTime := fun _ => none,
+          dryrun := dry == ofString "1", path := path }
+        let (tri, st) := Model.eval env msg e 0 msg { ml := [], flags := mf }
+        let parts := (Model.getAttachments msg).getD []
+        let msgs := Model.partMsg msg parts
+        let ml1 := String.intercalate ";" (st.ml.map matchDump)
+        let fl := optHexD (Model.flagsStr st.flags 64)
+        match tri with
+        | .match =>
+          match Model.matchesInterpolate env st.ml msgs with
+          | none => s!"MATCH {ml1} {fl} INTERR"
+          | some (ml2, msgs2) => s!"MATCH {ml1} {fl} {String.intercalate ";" (ml2.map matchDump)} {dumpTable (msgs2 0)}"
+        | t => s!"{triName t} {ml1} {fl}"
+  | _ => "BADOP"
+
 def handleMsg (side op : String) (args : List Bytes) : Option String :=
   match side, op, args with
   | "M", "hparse", [m] => some (dumpTable (Model.parseMessage m))
@@ -123,6 +215,7 @@ def handleMsg (side op : String) (args : List Bytes) : Option String :=
   | "M", "body", [m] => some (dumpBody (Model.getBody (Model.parseMessage m)))
   | "M", "unfold", [v] => some (toHex (Model.unfoldHeader v))
   | "M", "ctype", [] => some ctypeTable
+  | "M", "eval", as => some (handleEval as)
   | _, _, _ => none
 
 def handle (side op : String) (args : List String) : String :=
